@@ -2109,7 +2109,8 @@ class Affine:
             if q.size == 1:
                 q = np.array([q.flatten()[0]] * self.size)
             else:
-                q = q.reshape(affine.shape)
+                # a copy: later changes of the user's array are not followed
+                q = np.array(q).reshape(affine.shape)
         elif isinstance(q, (Vars, VarSub, Affine)):
             if affine.model is not q.model:
                 raise ValueError('Models mismatch.')
@@ -2768,6 +2769,9 @@ class PerspConvex(Convex):
                  multiplier=1):
 
         super().__init__(affine_in, affine_out, xtype, sign, multiplier)
+        if isinstance(affine_scale, np.ndarray):
+            # a copy: later changes of the user's array are not followed
+            affine_scale = np.array(affine_scale)
         self.affine_scale = affine_scale
 
     def __repr__(self):
